@@ -9,6 +9,7 @@ import Bita.Proofs.IoReader
 import Bita.Proofs.ReaderEnv
 import Bita.Proofs.Reuse
 import Bita.Proofs.HttpBounds
+import Bita.Proofs.OptionsCompose
 
 namespace Bita.Props.C08
 open Bita Bita.Spec
@@ -113,5 +114,35 @@ example :
       [.bytes 1, .pending, .bytes 9, .bytes 2, .pending, .bytes 1, .bytes 7, .bytes 7, .bytes 1]
     = [exactItem file ⟨30, 4⟩, exactItem file ⟨2, 3⟩, Item.errEof] := by
   decide +kernel
+
+/-- **"Up to the configured retry count", from the command line.**  The budget of the HTTP reader is the
+number that the `--http-retry-count` text denotes (`Options.parseClone`, tied in process to
+`cli::parse_opts`; 0 when the option is not given): with an honest server, at most that many failing
+responses in the chunk stream (refused, or cut anywhere in the body), no body that ends early without
+an error and enough complete responses, the clone succeeds with exactly the source - or a hash
+collision is exhibited. -/
+theorem clone_completes_within_the_configured_retry_count (H : Bytes → Bytes) (hH : ∀ x, (H x).length = 64)
+    (decomp : Nat → Bytes → Nat → Option Bytes) (features : List Nat)
+    (ka : Options.CloneArgs) (pk : Options.CloneParsed) (hpk : Options.parseClone ka = .ok pk)
+    (archive : Bytes) (e : HttpEnv) (hretry : e.retry = pk.retries)
+    (opts : CloneOpts) (prior : Bytes) (seeds : List Bytes)
+    (a : Archive) (src : Bytes) (cks : List Bytes)
+    (hserve : e.serve = honestServe archive)
+    (hat : ∀ off size, ∃ frags rest, e.atScript off size = Resp.full frags :: rest)
+    (hinit : tryInit H features (honestReadAt archive) = .ok a) (hd : Describes H a src cks)
+    (hs : Stored H decomp a archive)
+    (hpin : ∀ pin, opts.headerPin = some pin → pin = a.headerChecksum)
+    (hdev : opts.blockDev = true → src.length ≤ prior.length)
+    (hbad : (e.chunksScript.filter (fun r => match r with | .full _ => false | .part _ _ cut => cut | .refuse => true)).length ≤ pk.retries)
+    (hnoend : ∀ r ∈ e.chunksScript, ∀ n frags, r ≠ Resp.part n frags false)
+    (hlen : a.chunks.length ≤
+      (e.chunksScript.filter (fun r => match r with | .full _ => true | _ => false)).length) :
+    pk.retries < 2 ^ 32 ∧
+    (let r := Clone.run H decomp features e.readAt e.readChunks opts prior seeds
+     (r.result = .ok ∧ setLen r.output src.length = src ∧ (opts.blockDev = false → r.output = src)) ∨
+       Collision H a.hashLength cks) :=
+  ⟨(Proofs.parseClone_ok ka pk hpk).2.2.2.2.2.2.2,
+   Proofs.clone_http_complete_budget H hH decomp features archive e opts prior seeds a src cks hserve hat hinit hd hs hpin hdev
+     (hretry ▸ hbad) hnoend hlen⟩
 
 end Bita.Props.C08
